@@ -12,7 +12,7 @@ DECIDED = ("R9.1 in every checked (safe) public install root the installation is
            "fake!, async_return!) the recorded string is type_name of a *fn-pointer type* assembled from the arm's tokens (unsafety, ABI, "
            "parameter and return types as declared) and the recorded pointer is that same value; R9.3 the unchecked macros record the empty "
            "string and when_called_unchecked expects the empty string, when_called* otherwise store the FuncPtr's own recorded signature; "
-           "R9.4 null is refused at construction (C05 R5.3); R9.5 async_func! and async_return! record the same type constructor "
+           "R9.4 null is refused at construction (the rule of C05 R5.3, repeated here); R9.5 async_func! and async_return! record the same type constructor "
            "`fn() -> Poll<T>` over the same T, and a future of another output type is rejected by rustc (compile-fail witness E0271 with a "
            "compiling twin); R9.6 over a family of 14 fn-pointer types differing in arity, one parameter type, return type, reference/pointer "
            "mutability, unsafety and ABI, the strings rustc's own type_name implementation renders (taken from the compiler at check time, not by "
@@ -215,6 +215,10 @@ def run_one(ck, tm, tier, ws):
               "the same type written for a different function and for a closure renders as %s" % sorted(set(map(str, same))))
     else:
         ck.ob("R9.6", "family/compiles", tm.target, False, "the type family module does not compile: %s" % (hm.h.verdicts.get("fam_types") or [{}])[0].get("message"))
+    # ---------------- R9.4 a null pointer is refused when the handle is constructed (shared with C05 R5.3)
+    from .c05 import null_refused_at_construction
+    k4 = null_refused_at_construction(ck, tm, "R9.4")
+    ck.floor("R9.4", "handle-construction-sites", k4, 1, tm.target)
     # ---------------- R9.5 async agreement and compile-fail witness
     a_sig = r_sig = None
     for mod, d in hm.modules("async_func"):
